@@ -14,9 +14,9 @@ ASSUMPTIONS = ['constraints are deterministic, idempotent and map the box into i
                'in tight/clip range modes per-member energies are judged only on members that are fixed points of constraint and box',
                'array-valued costs return numpy arrays; reducer results compared with rel 1e-12, otherwise bit-exact']
 CLASSES = {
-    'class_api': {'quick': 5120, 'thorough': 51200},
-    'wrappers': {'quick': 1280, 'thorough': 12800},
-    'ensembles': {'quick': 768, 'thorough': 7680},
+    'class_api': {'quick': 10240, 'thorough': 51200},
+    'wrappers': {'quick': 2560, 'thorough': 12800},
+    'ensembles': {'quick': 1536, 'thorough': 7680},
 }
 MIN_EVENTS = {'quick': {'step_boundaries': 2500, 'assert:c01': 3000, 'members_judged': 5000, 'cost_calls': 20000}}
 CASE_TIMEOUT = 120
